@@ -180,6 +180,8 @@ def templates(pyver, tier, rng=None):
     add("long-line-and-bytecode", "y =" + ("-x" * 100) + ("\n" * 300) + "z = y\n")
     add("long-jump", "x = x or " + "-x" * 100 + "\nwhile x:\n    x -= 1\n")
     add("nested-deep", "def a():\n def b():\n  def c():\n   def d():\n    def e():\n     return lambda: [lambda: (i for i in x)]\n")
+    for z in opcode_zoo(pyver):
+        add(*z)
     if pyver >= (3, 10):
         add("match-stmt", "match x:\n    case [1, 2, *r]:\n        y = r\n    case {'k': v, **rest}:\n        y = v\n    case P(a=1) | Q():\n        y = 0\n    case str() as s if s:\n        y = s\n    case _:\n        y = None\n")
         add("with-paren", "with (a as b,\n      c as d):\n    pass\n")
@@ -232,4 +234,15 @@ def odd_filename_cases(pyver):
     out = []
     for i, fn in enumerate(names):
         out.append({"k": "src", "id": "w4:filename-%d" % i, "text": src, "filename": fn})
+    return out
+
+
+def opcode_zoo(pyver):
+    """Rarely used opcodes, so that the opcode coverage of the quick corpus is complete."""
+    src = ("def f(a, b):\n    global g\n    a @= b; a %= b; a **= b; a /= b; a >>= b; a <<= b; a //= b; a ^= b; a |= b; a &= b\n"
+           "    s = {*a, *b}\n    del g\n    del a.x, b[0]\n    return s\n")
+    out = [("opcode-zoo", src, "exec", 0)]
+    if pyver >= (3, 10):
+        out.append(("opcode-zoo-match", "def m(x):\n    match x:\n        case [a, b, c, d, *e] if a:\n            return a, b, c, d, e\n"
+                    "        case {'k': v, 'l': w, **r}:\n            return v, w, r\n        case P(a, b, c=d):\n            return a\n", "exec", 0))
     return out
